@@ -31,7 +31,9 @@ func ParseStyledString(s string) []Cell {
 	// buffered, so buffer the whole string: otherwise a cluster straddling
 	// the reader's buffer size would come back in pieces
 	r := bufio.NewReaderSize(strings.NewReader(s), len(s)+utf8.UTFMax)
-	parser := ansi.NewParser(r)
+	// a string is not typed: how long the parser takes over it must not
+	// turn an ESC into the Escape key and the rest of its sequence into text
+	parser := ansi.NewTextParser(r)
 	defer parser.Close()
 	cells := make([]Cell, 0, len(s)/2) // best effort
 	style := Style{}
